@@ -13,7 +13,17 @@ Subset (anything else raises Unsupported => the check reports the construct, it 
   * a `sexp`-returning function: `return <call to sexp_*_exception>` => RErr, any other => RVal <word>;
   * writer functions (void, one `unsigned char *` parameter): `switch` on an integer with arms made of
     `*p++ = e;` / `*p = e;` terminated by `break` => the list of bytes written, in order;
-  * strlen(p) of the byte-array pointer => an extra integer parameter p_strlen.
+  * strlen(p) of the byte-array pointer => an extra integer parameter p_strlen;
+  * a call of a leaf function translated EARLIER in FUNCTIONS (integer parameters only, integer result)
+    => application of its Gallina translation; its `_safe` predicate joins the caller's;
+  * the number of bytes between the byte pointer and the end of the string it points into => an extra
+    integer parameter p_rem.  Recognised ONLY in this shape (anything else fails closed): the pointer is a
+    local initialised as `(cast)(sexp_string_data(S)) + E` and the expression is
+    `(sexp_sint_t)sexp_string_size(S) - E'` with S a `sexp` parameter, sexp_string_data(S) spelled as
+    bytes-data-of(S->value.string.bytes) + S->value.string.offset, and E' the SAME expression as E (clang ASTs
+    compared node by node) built from `sexp` parameters and constants only.  Then, whatever the cursor
+    representation, p_rem = size(S) - (p - data(S)); the model supplies size - offset.  (The cast of
+    the size to sexp_sint_t is the identity below 2^63.)
 Semantics: every operation whose C type is unsigned carries `wrap bits`; a cast that can lose
 information carries wrap/swrap; operations whose C type is signed are translated to the unbounded Z
 operation AND contribute a conjunct to a second generated function `<fn>_safe` (result inside the
@@ -95,8 +105,12 @@ def conj(terms):
 
 
 class Fn:
-    def __init__(self, decl):
+    def __init__(self, decl, known=None):
         self.decl = decl
+        self.known = known or {}    # C name -> (number of integer parameters, return type) of the leaf functions translated so far
+        self.ptr_init = {}          # pointer local -> AST of its initialiser
+        self.sexp_params = set()
+        self.uses_rem = False
         self.name = decl["name"]
         self.ints = {}          # C name -> Gallina name (integer params / locals)
         self.ptr = None         # the one byte-array pointer (C name)
@@ -223,6 +237,14 @@ class Fn:
             t = int_type(qtype(n))
             if t is None:
                 raise Unsupported("%s: binary %s on type %s" % (self.name, op, qtype(n)))
+            if op == "-":
+                p = self.remaining(n)
+                if p is not None:
+                    if self.ptr not in (None, p):
+                        raise Unsupported("%s: more than one byte pointer (%s, %s)" % (self.name, self.ptr, p))
+                    self.ptr = p
+                    self.uses_rem = True
+                    return "%s_rem" % p, []
             a, sa = self.expr(n["inner"][0])
             b, sb = self.expr(n["inner"][1])
             s = sa + sb
@@ -266,8 +288,102 @@ class Fn:
                 self.ptr = p
                 self.uses_strlen = True
                 return "%s_strlen" % p, []
+            if cname in self.known and cname != self.name:
+                nparams, rtype = self.known[cname]
+                args = n["inner"][1:]
+                if len(args) != nparams or int_type(qtype(n)) != int_type(rtype) or int_type(rtype) is None:
+                    raise Unsupported("%s: call of %s with an unexpected signature" % (self.name, cname))
+                terms, safes = [], []
+                for a in args:
+                    if int_type(qtype(a)) is None:
+                        raise Unsupported("%s: call of %s with a non-integer argument" % (self.name, cname))
+                    t, sa = self.expr(a)      # the implicit conversion to the parameter type is a cast node of the argument
+                    terms.append(t)
+                    safes += sa
+                return "(%s %s)" % (cname, " ".join(terms)), safes + ["(%s_safe %s)" % (cname, " ".join(terms))]
             raise Unsupported("%s: call of %s" % (self.name, cname))
         raise Unsupported("%s: expression kind %s" % (self.name, k))
+
+    # ---------------------------------------------------------------- bytes remaining after the pointer
+    @staticmethod
+    def strip(n, casts=("LValueToRValue", "NoOp", "BitCast")):
+        while n["kind"] == "ParenExpr" or (n["kind"] in ("ImplicitCastExpr", "CStyleCastExpr") and n.get("castKind") in casts):
+            n = n["inner"][0]
+        return n
+
+    def member_of_param(self, n, path):
+        """n is S->value.string.<...> for a `sexp` parameter S, member names = path (outermost first) -> S | None"""
+        n = self.strip(n)
+        for i, nm in enumerate(path):
+            if n["kind"] != "MemberExpr" or n.get("name") != nm or bool(n.get("isArrow")) != (i == len(path) - 1):
+                return None
+            n = self.strip(n["inner"][0])
+        if n["kind"] == "DeclRefExpr" and n["referencedDecl"]["name"] in self.sexp_params:
+            return n["referencedDecl"]["name"]
+        return None
+
+    def canon(self, n):
+        """structure of an expression over `sexp` parameters and constants (locations and ids dropped);
+        raises on anything that could depend on a translated variable or on memory"""
+        n = self.strip(n, casts=())
+        k = n["kind"]
+        if k == "DeclRefExpr":
+            nm = n["referencedDecl"]["name"]
+            if nm not in self.sexp_params:
+                raise Unsupported("%s: cursor expression mentions %s" % (self.name, nm))
+            return ("ref", nm)
+        if k == "IntegerLiteral":
+            return ("lit", n["value"], qtype(n))
+        if k in ("ImplicitCastExpr", "CStyleCastExpr"):
+            return ("cast", n.get("castKind"), qtype(n), self.canon(n["inner"][0]))
+        if k in ("BinaryOperator", "UnaryOperator") and n.get("opcode") in ("+", "-", "*", "/", "&", "|", "<<", ">>", "~"):
+            return (k, n["opcode"], qtype(n)) + tuple(self.canon(c) for c in n["inner"])
+        raise Unsupported("%s: cursor expression of kind %s" % (self.name, k))
+
+    def const_only(self, n):
+        if n["kind"] in ("DeclRefExpr", "CallExpr", "ArraySubscriptExpr") or (n["kind"] == "UnaryOperator" and n.get("opcode") == "*"):
+            return False
+        if n["kind"] in ("OffsetOfExpr", "UnaryExprOrTypeTraitExpr"):
+            return True
+        return all(self.const_only(c) for c in n.get("inner", []))
+
+    def string_data_of(self, n):
+        """n == sexp_string_data(S) == (char*)S->value.string.bytes + <constant> + S->value.string.offset -> S | None"""
+        n = self.strip(n)
+        if n["kind"] != "BinaryOperator" or n.get("opcode") != "+":
+            return None
+        base, off = n["inner"]
+        s2 = self.member_of_param(self.strip(off), ["offset", "string", "value"])
+        base = self.strip(base)
+        if s2 is None or base["kind"] != "BinaryOperator" or base.get("opcode") != "+":
+            return None
+        s1 = self.member_of_param(base["inner"][0], ["bytes", "string", "value"])
+        if s1 is None or s1 != s2 or not self.const_only(base["inner"][1]):
+            return None
+        return s1
+
+    def remaining(self, n):
+        """`(sexp_sint_t)sexp_string_size(S) - E` where some byte pointer p = sexp_string_data(S) + E  ->  p | None"""
+        if n.get("opcode") != "-" or int_type(qtype(n)) != (64, True):
+            return None
+        lhs, rhs = n["inner"]
+        lhs = self.strip(lhs, casts=("LValueToRValue", "NoOp"))
+        if lhs["kind"] != "CStyleCastExpr" or lhs.get("castKind") != "IntegralCast" or int_type(qtype(lhs)) != (64, True):
+            return None
+        if int_type(qtype(lhs["inner"][0])) != (64, False):
+            return None
+        S = self.member_of_param(lhs["inner"][0], ["length", "string", "value"])
+        if S is None:
+            return None
+        for p, init in self.ptr_init.items():
+            i = self.strip(init)
+            if i["kind"] != "BinaryOperator" or i.get("opcode") != "+":
+                continue
+            if self.string_data_of(i["inner"][0]) != S:
+                continue
+            if self.canon(i["inner"][1]) == self.canon(rhs):
+                return p
+        return None
 
     def convert(self, a, src, dst):
         slo, shi = (-(1 << (src[0] - 1)), (1 << (src[0] - 1)) - 1) if src[1] else (0, (1 << src[0]) - 1)
@@ -351,7 +467,9 @@ class Fn:
                     lets.append((g, v, conj(sf)))
                     self.ints[d["name"]] = g
                 elif q.replace("const ", "").strip() in ("unsigned char *", "char *"):
-                    self.ptr_candidates.add(d["name"])   # initialiser deliberately not translated
+                    self.ptr_candidates.add(d["name"])   # initialiser not translated (only matched by `remaining`)
+                    if d.get("inner"):
+                        self.ptr_init[d["name"]] = d["inner"][-1]
                 else:
                     raise Unsupported("%s: local %s of type %s" % (self.name, d["name"], q))
             v, sf = self.stmts(rest, k_val, k_safe)
@@ -488,7 +606,8 @@ class Fn:
                     self.ptr_candidates.add(c["name"])
                     if self.ret_type == "void" and "const" not in q:
                         out_ptr = c["name"]
-                # other (sexp ...) parameters: not usable in translated expressions
+                elif q.strip() in ("sexp", "struct sexp_struct *"):
+                    self.sexp_params.add(c["name"])   # not usable in translated expressions (see `remaining`)
             elif c["kind"] == "CompoundStmt":
                 body = c
         if self.ret_type == "void":
@@ -503,7 +622,7 @@ class Fn:
             rty = "cres" if self.ret_sexp else "Z"
         params = list(self.params)
         if self.ptr is not None and self.ret_type != "void":
-            params = ["%s_%d" % (self.ptr, k) for k in range(self.ptr_max + 1)] + (["%s_strlen" % self.ptr] if self.uses_strlen else []) + params
+            params = ["%s_%d" % (self.ptr, k) for k in range(self.ptr_max + 1)] + (["%s_strlen" % self.ptr] if self.uses_strlen else []) + (["%s_rem" % self.ptr] if self.uses_rem else []) + params
         binder = " ".join("(%s : Z)" % p for p in params)
         txt = "Definition %s %s : %s :=\n  %s.\n\n" % (self.name, binder, rty, val)
         txt += "Definition %s_safe %s : bool :=\n  %s.\n\n" % (self.name, binder, sf)
@@ -515,9 +634,12 @@ def translate_all(build_dir):
              "   and harness/leaf_c12.c (macro instantiations).  Do not edit. *)\n"
              "From ChibiV Require Import C12.CSem.\nLocal Open Scope Z_scope.\nLocal Open Scope bool_scope.\n\n"]
     sigs = {}
+    known = {}
     for src, fn in FUNCTIONS:
-        f = Fn(ast_of(build_dir, src, fn))
+        f = Fn(ast_of(build_dir, src, fn), known)
         txt, params = f.translate()
+        if f.ptr is None and f.ret_type != "void" and int_type(f.ret_type):
+            known[fn] = (len(params), f.ret_type)
         parts.append("(* %s : %s *)\n" % (os.path.basename(src), fn))
         parts.append(txt)
         sigs[fn] = params
